@@ -51,7 +51,7 @@ func switchKinds(info *types.Info, fd *ast.FuncDecl) map[string]*ast.CaseClause 
 func CheckC11(c *Ctx) {
 	run := c.Run
 	run.Technique = "typed-AST agreement lints between sibling encoder/decoder functions: handled reflect kinds, bit-size table, float/time format arguments, constant-folded os.OpenFile flag sets, header-map indexing, JSON delimiters"
-	run.Explanation = "Round-trip equality for all values depends on strconv, encoding/csv, encoding/json and time and is NOT decided. Decided are the structural agreements (and, for every struct with codec tags, that no two fields share a json or header name: encoding/json drops both such fields silently) without which some value cannot round-trip: getReflectValue and setReflectValue handle the same reflect kinds; every sized numeric kind has a bit size in kindToBits, and the formatter and the parser use the same entry; floats are written with FormatFloat(v, fmt, -1, bits) (shortest representation that parses back exactly); time values are formatted and parsed with the same layout value; WriteToFile opens with O_CREATE|O_WRONLY|O_TRUNC (a shorter rewrite must not keep the old tail) and AppendToFile with O_APPEND|O_WRONLY; AppendOrWriteToCsvFile appends only to an existing non-empty file; the reader indexes each record through the header map; ChanToJSON emits and JSONToChan expects '[' ',' ']'. Column order: header i and cell i of every written row are taken from the same column descriptor at the loop's own position. Also: integers and booleans are written and parsed with the same strconv family, base 10 and the field's own 64-bit value (SSA terms of the calls); the parsed value is stored exactly on the paths where the parse succeeded; every layout constant of the codec (default format, format tags) carries each field it mentions completely (07:14 vs 19:14, 1923 vs 2023 evaluated with time.Format)."
+	run.Explanation = "Round-trip equality for all values depends on strconv, encoding/csv, encoding/json and time and is NOT decided. Decided are the structural agreements (and, for every struct with codec tags, that no two fields share a json or header name: encoding/json drops both such fields silently) without which some value cannot round-trip: getReflectValue and setReflectValue handle the same reflect kinds; every sized numeric kind has a bit size in kindToBits, and the formatter and the parser use the same entry; floats are written with FormatFloat(v, fmt, -1, bits) (shortest representation that parses back exactly); time values are formatted and parsed with the same layout value; WriteToFile opens with O_CREATE|O_WRONLY|O_TRUNC (a shorter rewrite must not keep the old tail) and AppendToFile with O_APPEND|O_WRONLY; AppendOrWriteToCsvFile appends only to an existing non-empty file; the reader indexes each record through the header map; ChanToJSON emits and JSONToChan expects '[' ',' ']'. Column order: header i and cell i of every written row are taken from the same column descriptor at the loop's own position. Also: integers and booleans are written and parsed with the same strconv family, base 10 and the field's own 64-bit value (SSA terms of the calls); the parsed value is stored exactly on the paths where the parse succeeded; every layout constant of the codec (default format, format tags) carries each field it mentions completely (07:14 vs 19:14, 1923 vs 2023 evaluated with time.Format). A string cell is stored as read: every reflect SetString behind setReflectValue receives the cell parameter itself (SSA)."
 	run.Trusted = []string{"go/types constant folding", "strconv/encoding/time semantics of the named functions"}
 	hp := c.P.Pkg("helper")
 	if hp == nil {
@@ -61,6 +61,7 @@ func CheckC11(c *Ctx) {
 	info := hp.TypesInfo
 	c.structTagNames()
 	c.csvOptions()
+	c.stringCellsVerbatim()
 	get := c.fn("helper", "", "getReflectValue")
 	set := c.fn("helper", "", "setReflectValue")
 	if get == nil || set == nil {
@@ -925,6 +926,12 @@ func (c *Ctx) csvOptions() {
 				case "ReuseRecord", "FieldsPerRecord", "UseCRLF":
 					run.Oblige(true) // do not change which rows and cells are read back
 				default:
+					if i < len(as.Rhs) && as.Tok == token.ASSIGN {
+						if tv, ok := info.Types[as.Rhs[i]]; ok && tv.Value != nil && (tv.Value.ExactString() == "false" || tv.Value.ExactString() == "0") {
+							run.Oblige(true) // the option's zero value, spelled out
+							continue
+						}
+					}
 					run.Oblige(false)
 					c.violate("codec-agreement/csv-options", "helper", side+"."+sel.Sel.Name, as.Pos(),
 						"the CSV "+side+" sets "+sel.Sel.Name+" = "+val+": the other side of the codec does not know about it, so some rows or cells it writes are read back differently (a Comment character drops every line that starts with it; the writer does not quote such a cell)")
